@@ -64,7 +64,7 @@ def build_pkg(ctx, schema_name, schema_files, config_name, must=True):
     return pk
 
 
-def run_mode(ctx, pkg, mode, env=None, timeout=1800, mem_gb=6, what=None, max_restarts=12, fill_death_is_violation=False, reclass=None, advisory_deaths=(), resume=False):
+def run_mode(ctx, pkg, mode, env=None, timeout=1800, mem_gb=6, what=None, max_restarts=12, fill_death_is_violation=False, reclass=None, advisory_deaths=(), resume=False, oom_is_violation=False):
     """runs one harness mode in journaled children; a child death is attributed to the last journaled item,
     reported, and the run resumes without that item. Returns (counters, extra events)."""
     what = what or ("%s on %s/%s" % (mode, pkg.schema, pkg.config))
@@ -107,6 +107,12 @@ def run_mode(ctx, pkg, mode, env=None, timeout=1800, mem_gb=6, what=None, max_re
             # the value generator (generated FillRandom) died: that is C18's property, here the item is just not covered
             ctx.note("%s: FillRandom of %s killed the child (%s); item skipped (decided by C18)" % (what, item, cls))
             ctx.cov.setdefault("counters", {})["items_skipped_because_fillrandom_dies"] = ctx.cov.get("counters", {}).get("items_skipped_because_fillrandom_dies", 0) + 1
+        elif cls == "out-of-memory" and not oom_is_violation and not r.timed_out:
+            # a legitimately large random value can exhaust the child's memory cap while it is held in several encodings: that is not the
+            # property of this check (C08 decides allocation on hostile input and keeps it a violation); the item is given up
+            ctx.note("%s: child ran out of memory (cap %d GB) at '%s' of item %s: item skipped" % (what, mem_gb, last and last.get("what"), item))
+            c = ctx.cov.setdefault("counters", {})
+            c["items_skipped_after_out_of_memory"] = c.get("items_skipped_after_out_of_memory", 0) + 1
         elif last and any((str(last.get("what", "")).startswith(a[4:]) and cls == "out-of-memory") if a.startswith("oom:") else str(last.get("what", "")).startswith(a) for a in advisory_deaths):
             ctx.note("%s: child died (%s) at '%s' of item %s: outside the property, item skipped" % (what, cls, last.get("what"), item))
             c = ctx.cov.setdefault("counters", {})
@@ -195,7 +201,7 @@ def sanity_reclass(schema):
 
 
 def simple_check(ctx, mode, rule, require, quick_values, thorough_values, configs_quick=("tl2all",), configs_thorough=("tl2all", "split", "nobytes"),
-                 count_keys=("values",), env=None, fill_death_is_violation=False, sets_quick=None, mem_gb=6, random_quick=0, random_thorough=0):
+                 count_keys=("values",), env=None, fill_death_is_violation=False, sets_quick=None, mem_gb=6, random_quick=0, random_thorough=0, oom_is_violation=False):
     thorough = ctx.tier == "thorough"
     ctx.make_scratch()
     sets = REPO_SETS_ALL if thorough else (sets_quick or REPO_SETS_QUICK)
@@ -205,13 +211,13 @@ def simple_check(ctx, mode, rule, require, quick_values, thorough_values, config
     if env:
         e.update(env)
     for p in pkgs:
-        t, _ = run_mode(ctx, p, mode, env=e, fill_death_is_violation=fill_death_is_violation, mem_gb=mem_gb)
+        t, _ = run_mode(ctx, p, mode, env=e, fill_death_is_violation=fill_death_is_violation, mem_gb=mem_gb, oom_is_violation=oom_is_violation)
         for k, v in t.items():
             tot[k] = tot.get(k, 0) + v
     nrand = random_thorough if thorough else random_quick
     rpk = random_packages(ctx, nrand, mode) if nrand else []
     for p, sch in rpk:
-        t, _ = run_mode(ctx, p, mode, env=e, fill_death_is_violation=fill_death_is_violation, mem_gb=mem_gb, reclass=sanity_reclass(sch))
+        t, _ = run_mode(ctx, p, mode, env=e, fill_death_is_violation=fill_death_is_violation, mem_gb=mem_gb, reclass=sanity_reclass(sch), oom_is_violation=oom_is_violation)
         for k, v in t.items():
             tot[k] = tot.get(k, 0) + v
             tot["random_" + k] = tot.get("random_" + k, 0) + v
